@@ -12,8 +12,8 @@ TRUSTED = [
     "translators translate/wrapper.py: token equality of the wrapper f-string with the structure modelled in Model/Wrapper.v; "
     "statement equality of _forward_with_groupsum/_forward_direct/_setup_library_function with the modelled host code",
     "numpy concatenate/reshape/zeros and ctypes argument passing (observed by a recorder replacing lib_fn, not proved)",
-    "gcc: left shift into / of the sign bit of signed words behaves as two's complement (gcc/clang document this); "
-    "the sanitizer run therefore excludes the shift checks",
+    "the wrapper shifts in the unsigned type of the word's width (F34) and converts back to the signed word type (implementation-defined, "
+    "modulo 2^W on gcc/clang); the sanitizer run includes the shift checks",
 ]
 
 
